@@ -208,6 +208,10 @@ def check_pairing(p, w, r, max_g):
                     pend[which] = None
                 elif e.kind == 'yield':
                     close(f'the yield at line {e.line}', e.g, e.dl, pa.events.index(e))
+            if pa.status == 'loopcut':
+                # cut by the unrolling bound, not an end of the segment: the same prefix is continued by the paths on which the loop runs out
+                acc = {'put': 0, 'get': 0}
+                pend = {'put': None, 'get': None}
             close(f'the end of {root} ({status_str(pa.status)})')
     for key, rec in sorted(sites.items()):
         e = rec['e']
@@ -217,7 +221,7 @@ def check_pairing(p, w, r, max_g):
             r.fail('C04.R1', key, rec['why'], src(e.fi.module), e.line, rec['pa'].describe())
 
 
-def check_service_loop(p, w, r):
+def check_service_loop(p, w, r, wakeup=True):
     s = w.store
     for t, Q, grant in ((TP, QP, '_do_reserve_put'), (TG, QG, '_do_reserve_get')):
         fi = s.methods[t]
@@ -273,6 +277,19 @@ def check_service_loop(p, w, r):
                     bad = (pa, f'unexpected `{Q}.{e.op}` inside the service loop')
         if n_iter == 0:
             bad = (w.roots[t][0], 'no service-loop iteration found')
+        # the trigger serves whoever calls it and whatever it is called with (None, the request just queued, the timer event of a callback):
+        # every completing path reaches the loop test, unless the conditions it has passed say that the queue is empty
+        for pa in (w.roots[t] if wakeup else ()):
+            if pa.raises or pa.status in ('loopcut', 'backedge'):
+                continue
+            reached = any(e.kind in ('loophead', 'loopexit', 'loopcut') and e.fi.key == fi.key and len(frames_of(e)) == 0 for e in pa.events)
+            if not reached:
+                # no list operation can precede the early exit unnoticed: the queue length is the entry generation of Q
+                mutated = any(e.kind == 'op' and e.list == Q for e in pa.events)
+                empty = (not mutated) and lin.unsat(events_atoms(pa.events) + [('<', lin.norm({Q: -1}))])      # |Q| > 0 contradicts the path
+                if not empty and bad is None:
+                    bad = (pa, f'{t} returns without looking at {Q} although it may hold a servable request '
+                               f'(the wake-up is lost for every caller that does not satisfy the early-exit test, e.g. a timer callback)')
         if bad:
             r.fail('C04.R3', key, bad[1], src(fi.module), fi.node.lineno, bad[0].describe())
         else:
